@@ -97,3 +97,182 @@ def candidate_atoms(L: Rat, suffixes=("fit", "scipy.optimize.minimize")):
     for s in suffixes:
         out.extend(ucall_atoms(L, s))
     return out
+
+
+# ----------------------------------------------------------------------------------------------------------------
+# the rules
+# ----------------------------------------------------------------------------------------------------------------
+def _is_inf_or_pos_const(v) -> bool:
+    if not isinstance(v, Num):
+        return False
+    if v.r.is_const():
+        return v.r.const_value() > 0
+    a = v.r.single_atom()
+    return a is not None and a.kind == "sym" and a.name == "+inf"
+
+
+def _key_atoms(v, suffixes):
+    """candidate atoms occurring in the key of a value"""
+    out = []
+
+    def walk(k):
+        if isinstance(k, Rat):
+            out.extend(candidate_atoms(k, suffixes))
+        elif isinstance(k, tuple):
+            for x in k:
+                walk(x)
+    try:
+        walk(val_key(v))
+    except poly.Unmodelled:
+        pass
+    return out
+
+
+def _mentions_param(r: Rat, param: str) -> bool:
+    """The form refers to the function's own parameter (the object itself or something reached through it), not to a copy."""
+    import re
+    t = full_text(r)
+    return bool(re.search(r"(?<![\w.\]])%s(\.|\[)" % re.escape(param), t) or re.search(r"\(obj, \w+, %s\)" % re.escape(param), t))
+
+
+def check_symbolic(ck, f, outs, data_param, data_len: Rat, suffixes, grid=None):
+    """Selection in a symbolic loop (find_best_fit and anything shaped like it)."""
+    where = f.loc()
+    fq = f.qualname
+    n_dec = 0
+    y_names = set()
+
+    def unchanged_names(lr):
+        after_all = dict(getattr(lr, "local_after", {}))
+        after_all.update(lr.carried_after)
+        return {y for y, v in after_all.items() if v is lr.placeholders.get(y) or v is getattr(lr, "local_before", {}).get(y)}
+    # names a losing candidate leaves alone (per loop): the accumulators are among them; per-iteration temporaries are not
+    stable = {}
+    for o in outs:
+        if o.kind != "return":
+            continue
+        ss = SymbolicSelection(o)
+        for op, L, xname, tk in ss.decisions:
+            lr = ss.loop_of(xname)
+            if lr is None:
+                continue
+            after = lr.carried_after.get(xname)
+            if isinstance(after, Num) and _acc_name(after.r) == xname:
+                k = lr.node.lineno
+                u = unchanged_names(lr)
+                stable[k] = u if k not in stable else (stable[k] & u)
+    for o in outs:
+        if o.kind != "return":
+            continue
+        ss = SymbolicSelection(o)
+        for op, L, xname, tk in ss.decisions:
+            lr = ss.loop_of(xname)
+            if lr is None:
+                continue
+            n_dec += 1
+            rel = op if tk else NEGATE[op]
+            after = lr.carried_after.get(xname)
+            updated = not (isinstance(after, Num) and _acc_name(after.r) == xname)
+            loc = f.loc(lr.node)
+            ck.ob("P3", fq, "a candidate replaces the best only when its loss is smaller (or equal), and is kept out otherwise", loc,
+                  (updated and rel in ("lt", "le")) or (not updated and rel in ("ge", "gt")),
+                  found="loss %s bound on a path that %s the bound" % (rel, "updates" if updated else "keeps"))
+            cands = candidate_atoms(L, suffixes)
+            if updated:
+                ck.ob("P3", fq, "the bound becomes exactly the winning candidate's loss", loc, isinstance(after, Num) and after.r == L,
+                      expected=lambda: str(L)[:200], found=lambda: repr(after)[:200])
+                kept = []
+                after_all = dict(getattr(lr, "local_after", {}))
+                after_all.update(lr.carried_after)
+                for y, v in after_all.items():
+                    if y == xname or v is lr.placeholders.get(y) or v is getattr(lr, "local_before", {}).get(y):
+                        continue
+                    if y not in stable.get(lr.node.lineno, set()):
+                        continue   # re-assigned on every iteration: a temporary, not an accumulator
+                    if any(a.id in {c.id for c in cands} for a in _key_atoms(v, suffixes)):
+                        kept.append(y)
+                y_names.update(kept)
+                ck.ob("P3", fq, "best candidate and best loss are updated together (the kept candidate is the one the loss was computed from)", loc,
+                      len(kept) == 1, found="candidate kept in %s" % (kept or "nothing"))
+            else:
+                ck.ob("P3", fq, "a losing candidate is possible and leaves the accumulators alone", loc, bool(stable.get(lr.node.lineno)),
+                      found=str(sorted(stable.get(lr.node.lineno, set()))))
+            # S3 the loss
+            sa = L.single_atom()
+            is_sum = sa is not None and sa.kind == "fn" and sa.name == "SUM"
+            whole = is_sum and sa.args[1].is_zero() and sa.args[2] == data_len
+            ck.ob("P3", fq, "loss runs over all of the caller's data", loc, bool(whole),
+                  "the selection loss must be summed over exactly the measurements the caller supplied",
+                  expected=lambda: "SUM over 0..%s" % data_len, found=lambda: (("SUM over %s..%s" % (sa.args[1], sa.args[2])) if is_sum else str(L)[:160]))
+            ck.ob("P3", fq, "loss is computed from the caller's own data", loc, _mentions_param(L, data_param), found=lambda: full_text(L)[:200])
+            ck.ob("P3", fq, "loss is computed from this iteration's candidate", loc, len(cands) == 1,
+                  found=lambda: "%d candidate(s) in the loss: %s" % (len(cands), "; ".join(full_text(Rat.atom(c))[:120] for c in cands)))
+            if grid is not None and len(cands) == 1:
+                grid(ck, f, o, cands[0], loc)
+            # S4
+            outer = [l2 for l2 in o.loops if l2.kind == "for" and xname in getattr(l2, "carried_before", {})]
+            init = outer[0].carried_before[xname] if outer else None
+            ck.ob("P3", fq, "best loss starts at +inf or a positive constant bound", loc, _is_inf_or_pos_const(init), found=repr(init)[:80])
+            v = o.value
+            ok_ret = isinstance(v, Opaque) and any(v.desc in ("loop-carried %s" % y, "value of loop-local %s after the loop" % y,
+                                                              "loop-carried %s (non-additive)" % y) for y in (y_names or {"?"}))
+            if not ok_ret and y_names:
+                ok_ret = any(a for a in _key_atoms(v, suffixes)) and False
+            ck.ob("P3", fq, "the accumulator is what is returned", where, ok_ret or not y_names, found=repr(v)[:120])
+    return n_dec
+
+
+def check_unrolled(ck, f, outs, data_param, suffixes):
+    """Selection over a literal list of alternatives (fit_vle): the loop is unrolled, the running bound is a value."""
+    fq = f.qualname
+    where = f.loc()
+    n_dec = 0
+    for o in outs:
+        if o.kind != "return":
+            continue
+        seen = set()
+        b_cur = None
+        best = None
+        ok_path = True
+        for cond, taken in o.trace:
+            nd = normalise_decision(cond, taken)
+            if nd is None:
+                continue
+            op, l, r, tk = nd
+            if _acc_name(l) is not None or _acc_name(r) is not None:
+                continue   # a selection inside a symbolic loop: check_symbolic's business
+            cl = [a for a in candidate_atoms(l, suffixes) if a.id not in seen]
+            cr = [a for a in candidate_atoms(r, suffixes) if a.id not in seen]
+            if cl and not cr:
+                L, B = l, r
+            elif cr and not cl:
+                L, B, op = r, l, FLIP[op]
+                cl = cr
+            else:
+                continue
+            n_dec += 1
+            rel = op if tk else NEGATE[op]
+            if b_cur is None:
+                ck.ob("P3", fq, "best loss starts at +inf or a positive constant bound", where, _is_inf_or_pos_const(Num(B)), found=str(B)[:80])
+                b_cur = B
+            okb = B == b_cur
+            ck.ob("P3", fq, "every candidate is compared with the best loss so far", where, okb,
+                  "the bound a candidate is compared with must be the smallest loss seen so far",
+                  expected=lambda: str(b_cur)[:160], found=lambda: str(B)[:160])
+            ok_path = ok_path and okb
+            ck.ob("P3", fq, "loss is computed from the caller's own data", where, _mentions_param(L, data_param), found=lambda: full_text(L)[:200])
+            ck.ob("P3", fq, "loss is computed from this iteration's candidate", where, len(cl) == 1, found="%d new candidate(s)" % len(cl))
+            for a in cl:
+                seen.add(a.id)
+            if rel in ("lt", "le"):
+                b_cur = L
+                best = cl[0] if cl else None
+        if not n_dec:
+            continue
+        got = {a.id for a in _key_atoms(o.value, suffixes)}
+        want = {best.id} if best is not None else set()
+        if ok_path:
+            ck.ob("P3", fq, "the candidate returned is the one with the smallest loss among those tried", where, got == want,
+                  expected=lambda: full_text(Rat.atom(best))[:200] if best is not None else "no candidate",
+                  found=lambda: "; ".join(full_text(Rat.atom(poly.T.get(i)))[:160] for i in sorted(got)) or "no candidate")
+    return n_dec
